@@ -134,6 +134,13 @@ def gen(rng):
     for i in range(n):
         pkg = "com.acme" if foreign else rng.choice(["com.acme", "com.acme.core"])
         r = rng.random()
+        if not foreign and i == n - 1 and rng.random() < 0.25:
+            # a test class of the DEFAULT package (no package declaration), walked after the packaged ones
+            name = "Smoke%dTest" % i
+            path = "zsmoke/" + name + ".java"
+            u, xm = gen_test_class(rng, "", name, path, None)
+            units.append(u); exps.append([path, "1", xm])
+            continue
         if r < 0.6:
             name = "K%d" % i + rng.choice(["Test", "Tests"])
             path = ("src/test/java/" if maven else "") + pkg.replace(".", "/") + "/" + name + ".java"
